@@ -27,9 +27,9 @@ Definition hstate := list rv.
 
 (* the application parses [frame] (sitting in buffer [buf]) and calls StartHunt(frame.SrcAddr) *)
 Definition hunt_start (cp : bool) (s : store) (buf : nat) (frame : bytes) (st : hstate) : hstate :=
-  let mac := sub frame 6 6 in
+  let mac := fsub frame L_ETH_SRC in
   if existsb (fun v => beqb (deref s v) mac) st then st           (* huntList.Index(addr.MAC) != -1 *)
-  else st ++ [if cp then Owned mac else Ref buf 6 6].              (* huntList.Add(addr); go spoofLoop(addr) *)
+  else st ++ [if cp then Owned mac else Ref buf (fst L_ETH_SRC) (snd L_ETH_SRC)].              (* huntList.Add(addr); go spoofLoop(addr) *)
 
 (* StopHunt(Addr{MAC: mac}) with a MAC the application owns: AddrList.Del *)
 Definition hunt_stop (s : store) (mac : bytes) (st : hstate) : hstate :=
@@ -97,9 +97,9 @@ Close Scope string_scope.
 
 (* StartHunt(frame.SrcAddr) on an IPv4 frame; the new loop's first iteration announces at once *)
 Definition h4_start (cp : bool) (s : store) (buf : nat) (frame : bytes) (st : h4state) : h4state * list string :=
-  let mac := sub frame 6 6 in
+  let mac := fsub frame L_ETH_SRC in
   if h4_has mac st then (st, []) else
-  let v := if cp then Owned mac else Ref buf 6 6 in
+  let v := if cp then Owned mac else Ref buf (fst L_ETH_SRC) (snd L_ETH_SRC) in
   ({| h4_list := h4_list st ++ [(mac, v)]; h4_loops := h4_loops st ++ [v] |}, [item_announce (deref s v)]).
 
 Definition h4_stop (mac : bytes) (st : h4state) : h4state :=
@@ -115,9 +115,9 @@ Definition h4_tick (s : store) (st : h4state) : h4state * list string :=
   let r := fold_left (h4_tick1 s st) (h4_loops st) ([], []) in
   ({| h4_list := h4_list st; h4_loops := fst r |}, snd r).
 
-(* an ARP request (sender hardware address at 22..27, target address at 38..41) seen by ProcessPacket *)
+(* an ARP request (sender hardware address L_ARP_SHA, target address L_ARP_TPA) seen by ProcessPacket *)
 Definition h4_request (router_ip : bytes) (frame : bytes) (st : h4state) : list string :=
-  if h4_has (sub frame 22 6) st && beqb (sub frame 38 4) router_ip then [item_reply (sub frame 22 6)] else [].
+  if h4_has (fsub frame L_ARP_SHA) st && beqb (fsub frame L_ARP_TPA) router_ip then [item_reply (fsub frame L_ARP_SHA)] else [].
 
 Inductive h4op : Type :=
 | A4Start (frame : bytes)
